@@ -116,6 +116,45 @@ Definition law_counters (which : path) (sp : spec) (r : req) (fresh pgv : bool) 
      && path_eqb (path_of sp b pgv r) which
   then partition_ok (o_st a) (o_pods a) else true.
 
+(* ---------- the decision of a Running job's sync (running.go 66-112), stated on its own ---------- *)
+(* does some task that has a minAvailable show fewer succeeded pods than that, in the per-task table? *)
+Definition some_task_short (sp : spec) (tsc : list (positive * counts)) : bool :=
+  existsb (fun t => match t_min t, tsc_get (t_name t) tsc with
+                    | Some m, Some c => Z.ltb (cS c) m
+                    | _, _ => false end) (s_tasks sp).
+Definition minsucc_reached (sp : spec) (c : counts) : bool :=
+  match s_minsucc sp with Some m => Z.leb m (cS c) | None => false end.
+
+(* None = the phase stays Running *)
+Definition running_verdict (sp : spec) (c : counts) (tsc : list (positive * counts)) : option phase :=
+  let n := total_replicas sp in
+  if Z.eqb n 0 then None                                   (* scaled down to zero: keep the phase *)
+  else if minsucc_reached sp c then Some PhCompleted
+  else if Z.eqb (cS c + cF c) n then                       (* every pod has finished *)
+    if Z.leb (total_task_min sp) (s_min sp) && some_task_short sp tsc then Some PhFailed
+    else match s_minsucc sp with
+         | Some _ => Some PhFailed                         (* minSuccess not reached *)
+         | None => if Z.leb (s_min sp) (cS c) then Some PhCompleted else Some PhFailed
+         end
+  else if Z.ltb (n - s_min sp) (cP c) then Some PhPending
+  else None.
+
+(* a Running job reconciled by syncJob: the phase written is exactly the verdict on the counters
+   written with it; in particular Completed is written only if minSuccess is reached, or every
+   task that has a minAvailable reached it whenever job.minAvailable >= the sum of the task minimums *)
+Definition is_ksync (sp : spec) (b : obs) (r : req) : bool :=
+  negb (snd (apply_policies_d sp (o_vst b) r)) &&
+  match fst (exec (st_phase (o_vst b)) (apply_policies sp (o_vst b) r)) with KSync => true | _ => false end.
+Definition law_running (sp : spec) (r : req) (fresh : bool) (b a : obs) : bool :=
+  if fresh && negb (o_err a) && phase_beq (st_phase (o_vst b)) PhRunning && is_ksync sp b r then
+    let c := st_cnt (o_st a) in let tsc := st_tsc (o_st a) in
+    phase_beq (st_phase (o_st a))
+              (match running_verdict sp c tsc with Some p => p | None => PhRunning end) &&
+    implb (phase_beq (st_phase (o_st a)) PhCompleted && negb (minsucc_reached sp c) &&
+           Z.leb (total_task_min sp) (s_min sp))
+          (negb (some_task_short sp tsc))
+  else true.
+
 (* applyPolicies: a request of an older job version is answered by a sync *)
 Definition law_stale (st_ver : Z) (r : req) (got : action) : bool :=
   match r_action r with
